@@ -1487,7 +1487,8 @@ impl InvoiceFields {
 
 impl Writeable for UnsignedBolt12Invoice {
 	fn write<W: Writer>(&self, writer: &mut W) -> Result<(), io::Error> {
-		WithoutLength(&self.bytes).write(writer)
+		WithoutLength(&self.bytes).write(writer)?;
+		WithoutLength(&self.experimental_bytes).write(writer)
 	}
 }
 
